@@ -4,7 +4,7 @@ import os, binascii, tempfile
 from . import common
 from .grammar import Grammar
 
-VT = {'V': 'vf::V', 'W': 'vf::W', 'I': 'long', 'M': 'vf::MV', 'B': 'vf::Bag', 'N': 'no_type', 'T': 'vf::TD'}
+VT = {'V': 'vf::V', 'W': 'vf::W', 'X': 'vf::XT', 'I': 'long', 'M': 'vf::MV', 'B': 'vf::Bag', 'N': 'no_type', 'T': 'vf::TD'}
 
 def cchar(ch):
     o = ord(ch)
